@@ -271,6 +271,35 @@ pub fn gen_cases(mode: &str, tier: &str, seed: u64, out: &str) {
                 }
             }
         }
+        // pseudo-symmetric crystals (C01 soundness): one axis stretched by 5..12 symprec (at most 0.8 x its length x symprec...),
+        // fractional coordinates kept: operations that move that axis map atoms onto atoms but change lengths by more than
+        // the tolerance; whatever subgroup is reported, every reported operation must preserve the metric
+        "pseudo" => {
+            let n = if thorough { 530 } else { 150 };
+            for k in 0..n {
+                // orthorhombic and higher settings (Hall 108..530) plus some monoclinic ones
+                let h = if thorough { k + 1 } else if k % 10 == 0 { rng.range(3, 107) as i32 } else { rng.range(108, 530) as i32 };
+                let base0 = crystal(h, &mut rng, 2);
+                // all axes at least 8..12 A long, so that a change of length between the oracle's slack (8 symprec / shortest
+                // axis on |Q^T Q - I|) and `length x symprec` exists (a tolerance applied relatively would accept it)
+                let lens0: Vec<f64> = (0..3).map(|i| base0.cell.lattice.basis.column(i).norm()).collect();
+                let lmin0 = lens0.iter().cloned().fold(f64::INFINITY, f64::min);
+                let base = base0.scale(rng.uniform(8.0, 12.0) / lmin0);
+                let sp = *rng.pick(&[1e-4, 1e-3, 1e-2]);
+                let at = if rng.chance(0.7) { AngleTolerance::Default } else { AngleTolerance::Radian(rng.uniform(5e-3, 2e-2)) };
+                let axis = rng.range(0, 2) as usize;
+                let lens: Vec<f64> = (0..3).map(|i| base.cell.lattice.basis.column(i).norm()).collect();
+                let lmin = lens.iter().cloned().fold(f64::INFINITY, f64::min);
+                let (lo, hi) = (4.5 * lens[axis] / lmin, 0.9 * lens[axis]);
+                let delta = (if lo < hi { rng.uniform(lo, hi) } else { rng.uniform(5.0, 12.0) }) * sp * if rng.chance(0.5) { 1.0 } else { -1.0 };
+                let c0 = base.stretch_axis(axis, delta);
+                let lvl = rng.range(0, 2) as u32;
+                let sup = if rng.chance(0.25) && c0.cell.num_atoms() <= 48 { Some(*rng.pick(&hnfs_of_index(2))) } else { None };
+                let c = redescribe(&c0, &mut rng, lvl, sup);
+                let st = *rng.pick(&settings);
+                emit(&mut w, format!("h{}k{}-pseudo", h, k), &c, sp, at, st);
+            }
+        }
         // requested Hall setting (C10): matching type, own and re-described
         "hallreq" => {
             for h in 1..=530 {
